@@ -122,19 +122,38 @@ func (r *rwRT) shapes(kind string) []*astInput {
 				if kind == "TypeSwitchStmt" && !tag {
 					continue
 				}
-				init, tag := init, tag
-				mk(fmt.Sprintf("%s[init=%v,tag=%v,2 clauses]", kind, init, tag), func(b *astBuilder) AV {
-					c0 := b.obj("CaseClause", map[string]AV{"List": b.leaf("case0.List", leafInfo{what: "expression list"}), "Body": b.stmtList("case0.Body")})
-					c1 := b.obj("CaseClause", map[string]AV{"List": Nil{}, "Body": b.stmtList("case1.Body")})
-					body := b.ptr("BlockStmt", map[string]AV{"List": SliceV{Elems: []AV{c0, c1}}})
-					f := map[string]AV{"Init": opt(init, func() AV { return b.simple("stmt.Init") }), "Body": body}
-					if kind == "SwitchStmt" {
-						f["Tag"] = opt(tag, func() AV { return b.expr("stmt.Tag") })
-					} else {
-						f["Assign"] = b.simple("stmt.Assign")
+				for _, bind := range []bool{false, true} {
+					// the alternative form of the header: `switch v := x.(type)` / a tag that is a call
+					if bind && kind != "TypeSwitchStmt" && !tag {
+						continue
 					}
-					return b.obj(kind, f)
-				})
+					init, tag, bind := init, tag, bind
+					desc := fmt.Sprintf("%s[init=%v,tag=%v,2 clauses]", kind, init, tag)
+					if bind && kind == "TypeSwitchStmt" {
+						desc = fmt.Sprintf("%s[init=%v,bind=true,2 clauses]", kind, init)
+					} else if bind {
+						desc = fmt.Sprintf("%s[init=%v,tag=call,2 clauses]", kind, init)
+					}
+					mk(desc, func(b *astBuilder) AV {
+						c0 := b.obj("CaseClause", map[string]AV{"List": b.leaf("case0.List", leafInfo{what: "expression list"}), "Body": b.stmtList("case0.Body")})
+						c1 := b.obj("CaseClause", map[string]AV{"List": Nil{}, "Body": b.stmtList("case1.Body")})
+						body := b.ptr("BlockStmt", map[string]AV{"List": SliceV{Elems: []AV{c0, c1}}})
+						f := map[string]AV{"Init": opt(init, func() AV { return b.simple("stmt.Init") }), "Body": body}
+						if kind == "SwitchStmt" {
+							f["Tag"] = opt(tag, func() AV {
+								if bind {
+									return Dyn{T: b.r.astPtr("CallExpr"), V: b.leaf("stmt.Tag", leafInfo{what: "expression"})}
+								}
+								return b.expr("stmt.Tag")
+							})
+						} else if bind {
+							f["Assign"] = Dyn{T: b.r.astPtr("AssignStmt"), V: b.leaf("stmt.Assign", leafInfo{yieldCapable: true, what: "type switch guard with binding"})}
+						} else {
+							f["Assign"] = b.simple("stmt.Assign")
+						}
+						return b.obj(kind, f)
+					})
+				}
 			}
 		}
 	case "ForStmt":
